@@ -13,7 +13,7 @@ from translate_py import Z, B, S, O, L, D, T
 from vlib import coq_bool_cases
 
 HEADER = ("From Coq Require Import ZArith List Bool.\nFrom Coq Require String.\nImport String.StringSyntax.\n"
-          "From XV Require Import Base.PyLib Gen.PyBcast Gen.PyMisc Gen.PyUnique Gen.PyPackerIdx.\n"
+          "From XV Require Import Base.PyLib Gen.PyBcast Gen.PyMisc Gen.PyUnique Gen.PyPackerIdx Gen.PyPureFn.\n"
           "Open Scope Z_scope.\n")
 
 
@@ -180,7 +180,7 @@ class Entry:
 
 def _types(unit):
     """parameter / return / field types as the translator sees them on the current tree"""
-    relpath, specs = tp.UNITS[unit]
+    relpath, specs = tp.UNITS[unit][:2]
     u = tp.Unit(relpath, specs)
     u.translate()
     return u
@@ -327,6 +327,77 @@ def case_packeridx(rng, u, mod):
                 key=("pidx", _pattern(objs)))
 
 
+def case_purefn(rng, u, mod):
+    """PureFunction.set_objparams / restore_objparams on a real EditableModule method: a sequence of operations, the fields after
+    the last one (object store, current parameters, restore stack) or the exception that ended it"""
+    import xitorch as xt
+    objs = g_aliased(rng, 5)
+    nuniq = len(set(objs))
+    ops, depth, fresh = [], 0, [100]
+    for _ in range(rng.randrange(1, 6)):
+        r = rng.random()
+        if r < 0.55 or depth == 0 and r < 0.85:
+            kind = rng.choice(["fresh", "fresh", "identical", "partly", "wrong-length"])
+            ops.append(("set", kind))
+            depth += 1
+        else:
+            ops.append(("restore",))
+            depth -= 1
+    TSTATE = T(L(O), L(O), L(T(L(O), B)))
+
+    def newlist(kind, cur):
+        if kind == "identical":
+            return list(cur)
+        if kind == "partly" and cur:
+            out = list(cur)
+            fresh[0] += 1
+            out[-1] = ("tensor", fresh[0], True)
+            return out
+        n = nuniq + (rng.choice([-1, 1]) if kind == "wrong-length" else 0)
+        out = []
+        for _ in range(max(0, n)):
+            fresh[0] += 1
+            out.append(("tensor", fresh[0], True))
+        return out
+    # the descriptor-level lists are decided while running the real object (they depend on its current parameters)
+    steps = []
+
+    def call(pool):
+        class EM(xt.EditableModule):
+            def run(self):
+                return 0
+
+            def getparamnames(self, methodname, prefix=""):
+                return [prefix + "p%d" % i for i in range(len(objs))]
+        em = EM()
+        for i, d in enumerate(objs):
+            setattr(em, "p%d" % i, pool.get(d))
+        pf = mod.get_pure_function(em.run)
+        for op in ops:
+            if op[0] == "set":
+                new = newlist(op[1], [pool.desc(t) for t in pf._cur_objparams])
+                steps.append(("set", new))
+                pf.set_objparams([pool.get(d) for d in new])
+            else:
+                steps.append(("restore",))
+                pf.restore_objparams()
+        return ([getattr(em, "p%d" % i) for i in range(len(objs))], list(pf._cur_objparams), [(list(a), b) for a, b in pf._restore_stack])
+
+    def term():
+        t = "(fs_ <- uniquifier_init %s ;; let '(u0, u1, u2, u3, u4, u5) := fs_ in " % c_val(objs, L(O))
+        t += "s0_ <- Ok (%s, u1, (@nil (list obj * bool))) ;; " % c_val(objs, L(O))
+        for i, st in enumerate(steps):
+            prev = "s%d_" % i
+            if st[0] == "set":
+                t += "s%d_ <- (let '(a_, b_, c_) := %s in purefn_set_objparams true a_ (u0, u1, u2, u3, u4, u5) b_ c_ %s) ;; " % (i + 1, prev, c_val(st[1], L(O)))
+            else:
+                t += "s%d_ <- (let '(a_, b_, c_) := %s in purefn_restore_objparams true a_ (u0, u1, u2, u3, u4, u5) b_ c_) ;; " % (i + 1, prev)
+        return t + "Ok s%d_)" % len(steps)
+    c = dict(args=[objs, ops], call=call, rtype=TSTATE, key=("purefn", _pattern(objs), tuple(o[0] + (":" + o[1] if len(o) > 1 else "") for o in ops)))
+    c["term"] = term             # evaluated after the call (the steps are recorded by it)
+    return c
+
+
 FUNCTIONS = {
     "normalize_bcast_dims": ("PyBcast", "xitorch._utils.bcast", lambda r, u, m: case_bcast(r, u, m, "normalize_bcast_dims")),
     "get_bcasted_dims": ("PyBcast", "xitorch._utils.bcast", lambda r, u, m: case_bcast(r, u, m, "get_bcasted_dims")),
@@ -336,6 +407,7 @@ FUNCTIONS = {
     "separator": ("PyMisc", "xitorch._utils.misc", case_separator),
     "uniquifier": ("PyUnique", "xitorch._utils.unique", case_uniquifier),
     "packer_unique_idxs": ("PyPackerIdx", "xitorch._core.packer", case_packeridx),
+    "purefunction": ("PyPureFn", "xitorch._core.pure_function", case_purefn),
 }
 
 
@@ -367,6 +439,8 @@ def check(ctx, names, n):
                     continue
             except Exception as e:
                 expected = 'inr "%s"%%string' % type(e).__name__
+            if callable(c["term"]):
+                c["term"] = c["term"]()
             cases.append("res_eqb %s (%s) (%s)" % (c_eqb(c["rtype"]), c["term"], expected))
             meta.append((name, c, expected))
             ctx.count(key=("pycorr",) + tuple(c["key"]))
